@@ -284,7 +284,7 @@ def sample_script(d):
 WITNESS_Q = 23099
 REAL_SUITES = ["ed25519", "ed448", "p256", "ristretto255", "secp256k1", "secp256k1-tr"]
 GENERIC_KEYS = {"ok", "err", "culprits", "min", "max", "id", "same", "roundtrip_ok", "singles", "plains",
-                "inner_comm_eq", "commit_same", "keyed_by_own_id", "stage", "delta_ids"}
+                "inner_comm_eq", "commit_same", "keyed_by_own_id", "stage", "delta_ids", "structural_same"}
 ORDERED_KEYS = set()
 
 
@@ -348,20 +348,31 @@ def trace_stage(ctx, fatal, n_quick=120, n_thorough=1200, suites=None, id_modes=
     witness field (validated exactly by TraceAlg) and on the real suites
     (validated against the witness projection and value-free laws by TraceReal)."""
     import random
-    structs, seen = [], set()
+    per_slice, seen = [], set()
     for f in ctx.struct_files:
+        mine = []
         if os.path.exists(f):
             for line in open(f):
                 line = line.strip()
                 if line and line not in seen:
                     seen.add(line)
-                    structs.append(line)
-    if not structs:
+                    mine.append(line)
+        if mine:
+            per_slice.append(mine)
+    if not per_slice:
         raise ToolError("no scenario structures to record")
     rnd = random.Random(ctx.seed)
     n = n_thorough if ctx.tier == "thorough" else n_quick
-    if len(structs) > n:
-        structs = rnd.sample(structs, n)
+    # stratified: every slice contributes its share (a sweep slice with a dozen structures is taken whole),
+    # the remainder is drawn from what is left
+    share = max(1, n // len(per_slice))
+    structs, rest = [], []
+    for mine in per_slice:
+        rnd.shuffle(mine)
+        structs += mine[:share]
+        rest += mine[share:]
+    if len(structs) < n and rest:
+        structs += rnd.sample(rest, min(len(rest), n - len(structs)))
     d = os.path.join(ctx.dir, "traces")
     os.makedirs(d, exist_ok=True)
     sp = os.path.join(d, "structs.ndjson")
@@ -611,7 +622,7 @@ def taproot_stage(ctx):
         raise ToolError(f"fv taproot failed: {o[-400:]} {e[-400:]}")
     n_ev, bad = run_trace_tlc(d, "TraceTaproot", ep)
     ev = load_events(ep)
-    log(f"[{ctx.pid}] taproot: {n_ev} events ({n} sessions, {n * 15} fault cases) validated against TraceTaproot, {len(bad)} law violations")
+    log(f"[{ctx.pid}] taproot: {n_ev} events ({n} sessions, {n * 20} fault cases) validated against TraceTaproot, {len(bad)} law violations")
     seen = set()
     for (line, op, law) in bad:
         key = f"{ctx.pid}:tr:{law}"
@@ -626,7 +637,7 @@ def taproot_stage(ctx):
     ctx.cov["trace_events_validated"] += n_ev
     ctx.cov["traces_validated_against_impl"] += n
     ctx.cov["taproot_sessions"] = n
-    ctx.cov["taproot_fault_cases"] = n * 15
+    ctx.cov["taproot_fault_cases"] = n * 20
     if ev:
         ctx.cov["samples"].append({k: v for k, v in ev[1].items() if k != "faults"})
 
